@@ -134,6 +134,8 @@ func scenarioFiles(cases []*e1Case, harnessExtra string) map[string]string {
 	files["ext2/ext/ext.go"] = ext2Src
 	files["geo/v2/geo.go"] = geoSrc
 	files["same/p/p.go"] = sameSrc
+	// an external test package shares the directory (and derived.gen.go's path) with package p
+	files["p/ext_test.go"] = "package p_test\n\nvar Sink = 1\n"
 	decls := map[string]string{}
 	var sb strings.Builder
 	for _, c := range cases {
